@@ -62,7 +62,10 @@ def main() -> int:
             fn = f"deser.of.{key}"
             try:
                 if i % 8 == 0:
-                    barrier.wait(timeout=20)
+                    try:
+                        barrier.wait(timeout=30)      # only a means to make the clients collide; a slow peer is no error
+                    except threading.BrokenBarrierError:
+                        pass
                 buf = client.allocate(key, size, fn)
                 buf.view()[:size] = payload
                 buf.close()
@@ -75,9 +78,6 @@ def main() -> int:
                     client.purge(key)
                 with lock:
                     ops[0] += 4
-            except threading.BrokenBarrierError:
-                note(f"client {t}: another client stalled (barrier broken) at round {i}")
-                return
             except Exception as e:
                 note(f"client {t}: {type(e).__name__}: {str(e)[:120]} at key {key}")
 
@@ -101,14 +101,21 @@ def main() -> int:
     ths = [threading.Thread(target=worker, args=(t,), daemon=True) for t in range(nthreads)]
     if late_s:
         ths.append(threading.Thread(target=late_reader, daemon=True))
-    t0 = time.time()
     for th in ths:
         th.start()
-    for th in ths:
-        th.join(max(1.0, 60 - (time.time() - t0)))
+    # no fixed time limit (the machine may be busy): a client counts as stalled when NOBODY has completed a request for 45 s
+    last_ops, last_change = -1, time.time()
+    while any(th.is_alive() for th in ths):
+        time.sleep(0.2)
+        with lock:
+            now_ops = ops[0]
+        if now_ops != last_ops:
+            last_ops, last_change = now_ops, time.time()
+        elif time.time() - last_change > 45:
+            break
     stalled = [i for i, th in enumerate(ths) if th.is_alive()]
     if stalled:
-        note(f"clients {stalled} did not finish within 60 s (a request was never answered)")
+        note(f"clients {stalled} made no progress for 45 s (a request was never answered)")
     free = None
     try:
         if not stalled:
@@ -146,7 +153,7 @@ def run_tier(ctx, pid: str) -> None:
     for attempt in range(2):
         port = _free_port_base(10)
         p = subprocess.run([sys.executable, "-W", "ignore", "-m", "harness.drive.shm_clients", str(port), prefix + str(attempt), str(nthreads),
-                            str(rounds), "6.5" if pid == "C09" else "0"], cwd=ROOT, stdout=subprocess.PIPE, stderr=subprocess.PIPE, text=True, timeout=300)
+                            str(rounds), "6.5" if pid == "C09" else "0"], cwd=ROOT, stdout=subprocess.PIPE, stderr=subprocess.PIPE, text=True, timeout=3600)
         for f in glob.glob(f"/dev/shm/{prefix}*"):
             try:
                 os.unlink(f)
